@@ -4,7 +4,7 @@ from props.common import *
 ASSUMPTIONS = ['a label has fewer than 2^63 code points (Rust allocation bound); for Nickname enforce/compare every intermediate string of the at most four rounds does too',
                'allocation failure, stack exhaustion and panics inside std / unicode-normalization are outside the model: only observed by running every operation under catch_unwind']
 TRUSTED = ['the model produces the outcome `panic` exactly where the Rust text can panic (slicing, usize +-1 overflow, unwrap, indexing): hand-written, validated by the correspondence (a PANIC of the implementation is compared like any other result)']
-FACT_MODULES = ['Precis.Facts.Prof']
+FACT_MODULES = ['Precis.Facts.Prof', 'Precis.Lemmas.Utf8Bytes']
 RULES = ['zwnj', 'zwj', 'middledot', 'keraia', 'hebrew', 'katakana', 'arabic', 'extarabic']
 
 
